@@ -361,4 +361,15 @@ theorem rtVariantUnit (X : Ext) : ∀ (vs : List (Name × VKind × Ty)) (n : Nam
       simpa [fromVariant, hm] using rtVariantUnit X vs n p hw.2 ht
 
 
+theorem depthE_le_iff (d : Nat) : ∀ es : List (Val × Val), depthE es ≤ d ↔ ∀ e ∈ es, depth e.2 ≤ d
+  | [] => by simp [depthE]
+  | (k, v) :: r => by simp [depthE, Nat.max_le, depthE_le_iff d r]
+
+theorem allSome_none_of_mem {α : Type} : ∀ l : List (Option α), none ∈ l → allSome l = none
+  | [], h => by simp at h
+  | none :: _, _ => rfl
+  | some a :: r, h => by
+    simp only [List.mem_cons, reduceCtorEq, false_or] at h
+    simp [allSome, allSome_none_of_mem r h]
+
 end KotoVerif.Serde
